@@ -179,8 +179,8 @@ Section Total.
     (N.of_nat (length magic) < 2 ^ 64)%N -> (N.of_nat (length m) < 2 ^ 64)%N ->
     exists z, hash_for_signing dsha256 magic m = Ret z.
   Proof.
-    intros H1 H2. unfold hash_for_signing.
-    destruct (varstr_frame magic [] H1) as (a & -> & _). destruct (varstr_frame m [] H2) as (b & -> & _).
+    intros H1 H2. unfold hash_for_signing, stream_varstr.
+    destruct (varint_frame _ [] H1) as (a & -> & _). destruct (varint_frame _ [] H2) as (b & -> & _).
     cbn [bind]. eauto.
   Qed.
 
